@@ -2,7 +2,7 @@
 A fault planter (symbolic fault class x location x delta x widths) mutates the DSL description; the
 independent validity predicate vlib.dsl.ref_valid decides whether the mutated design really is
 ill-formed (a width delta that lands on n*w is valid broadcasting: filtered by the oracle, not by
-the harness author).  Post: elaborate, to_proto and netlist each raise."""
+the harness author).  Post: elaborate, to_proto and netlist each raise - also when the failed call is repeated (3 attempts on the same objects)."""
 import io
 from vlib import env
 from vlib.spec import harness, parts_over, parts_product
@@ -86,7 +86,8 @@ def plant(fault, level, delta, w, n):
     elif fault == 18:  # unnamed module
         (m if level == 1 else bleaf).name = None
     elif fault == 19:  # two distinct modules under one name
-        clash = Mod("Mid" if level == 0 else "BLeaf", ports=[("q", 1)], insts=[Inst("r", Prim("R", dict(r=2)), {"p": Sig("q"), "n": Sig("q")})])
+        # delta > 0: the clashing module carries the name of the module that instantiates it (ancestor / descendant)
+        clash = Mod(("Top" if level == 0 else "Mid") if delta > 0 else ("Mid" if level == 0 else "BLeaf"), ports=[("q", 1)], insts=[Inst("r", Prim("R", dict(r=2)), {"p": Sig("q"), "n": Sig("q")})])
         add(Inst("bad", clash, {"q": g}))
     elif fault == 20:  # pair: bundle member missing / scalar-vs-bundle mismatch
         add(Inst("bad", pcell, {"q": Bun("bb"), "g": g}, kind="pair"))
@@ -99,20 +100,29 @@ APIS = ("elaborate", "to_proto", "netlist")
 WHY = {}
 
 
+RETRIES = 3
+
+
 def _accepts(top_dsl, api):
-    """True iff the real code returns normally for this design through `api`"""
+    """True iff the real code returns normally for this design through `api` - at the first call or
+    when the very same (failed) call is repeated on the same objects: 'they never return a package'"""
     env.reset_all()
     try:
         m = build(top_dsl)
-        if api == "elaborate":
-            h.elaborate(m)
-        elif api == "to_proto":
-            h.to_proto(m)
-        else:
-            h.netlist(m, io.StringIO(), fmt="spice")
     except Exception:
         return False
-    return True
+    for attempt in range(RETRIES):
+        try:
+            if api == "elaborate":
+                h.elaborate(m)
+            elif api == "to_proto":
+                h.to_proto(m)
+            else:
+                h.netlist(m, io.StringIO(), fmt="spice")
+        except Exception:
+            continue
+        return True
+    return False
 
 
 def _run(fault, level, delta, w, n):
